@@ -300,12 +300,6 @@ theorem dynFin_mstep {s : MState} (h : DynFin u s.cfg s.dyn) (st : MStep) (ok : 
   | changed i attr => exact h
   | reconfig cfg' => exact ok
 
-/-- One message as the driver processes it (`Driver/Micro.lean`, `mdo`): the table twin of the step, then the
-re-packing of the registers. -/
-def mdoT (u : Universe) (s : TState) (st : MStep) : TState :=
-  let s' := mstepT u s st
-  { s' with dyn := compactDyn u s'.cfg s'.dyn }
-
 /-- **The driver's message step is the model's**: on registers of the form `DynFin` (which it keeps), for a
 message naming configured items and their effects, table step plus re-packing yield exactly `mstep`. -/
 theorem mdoT_toM {s : TState} (h : DynFin u s.cfg s.dyn) (st : MStep) (ok : StepFin u s.cfg s.dyn st) :
@@ -319,6 +313,21 @@ theorem mdoT_toM {s : TState} (h : DynFin u s.cfg s.dyn) (st : MStep) (ok : Step
     rw [hc]
   rw [this]
   exact ⟨hm, hf⟩
+
+/-- A message history all of whose messages name configured items and their effects. -/
+def RunFin (u : Universe) (s : MState) : List MStep → Prop
+  | [] => True
+  | st :: rest => StepFin u s.cfg s.dyn st ∧ RunFin u (mstep u s st) rest
+
+/-- Along such a history the driver's state is the model's. -/
+theorem mdoT_run : ∀ (steps : List MStep) (s : TState), DynFin u s.cfg s.dyn → RunFin u s.toM steps →
+    (steps.foldl (mdoT u) s).toM = steps.foldl (mstep u) s.toM ∧
+    DynFin u (steps.foldl (mdoT u) s).cfg (steps.foldl (mdoT u) s).dyn
+  | [], _, h, _ => ⟨rfl, h⟩
+  | st :: rest, s, h, ok => by
+    obtain ⟨h1, h2⟩ := mdoT_toM h st ok.1
+    rw [List.foldl_cons, List.foldl_cons, ← h1]
+    exact mdoT_run rest (mdoT u s st) h2 (h1 ▸ ok.2)
 
 /-- Whatever the registers, the re-packing does not change what the model computes from them for the
 configuration's items: loaded flags, running effects, recorded targets. -/
@@ -356,5 +365,665 @@ theorem targetsOf_compactDyn {x : Item} (hx : x ∈ cfg.items) {e : Effect} (he 
       · exact ht
       · cases ht
     rw [compactDyn_tgts_of_mem hx (by unfold effsOf; rw [hty, hid]; exact hk)]
+
+/-! ## 4. The executable read
+
+`readNode` is split into its body with the recursive call abstracted (`readBody`, `readCalc`, `gstep`); the
+body is analysed once, the induction on the fuel is then three lines. -/
+
+section read
+variable (u) (immune limited : List Int) (pen : Nat → Rat)
+
+/-- One step of `readNode`'s fold over the affector specs, with the recursive read abstracted as `rd`. -/
+def gstep (rd : Cache → Item → Int → Cache × Val) (cfg : Config) (d : Dyn) (y : Item)
+    (st : Cache × Except Val (List Mod)) (sp : Spec) : Cache × Except Val (List Mod) :=
+  match st.2 with
+  | .error _ => st
+  | .ok l =>
+    let r1 := rd st.1 sp.a sp.m.srcAttr
+    match r1.2 with
+    | .absent => (r1.1, .ok l)
+    | .ok v =>
+      let mk (rr : Rat) : Mod :=
+        { op := sp.m.op, value := v, resist := rr, agg := sp.m.agg, aggKey := sp.m.aggKey,
+          immune := immuneOf u d immune sp.a }
+      (match resistRead cfg sp.e y with
+      | none => (r1.1, .ok (l ++ [mk 1]))
+      | some (c, r) =>
+        let r2 := rd r1.1 c r
+        match r2.2 with
+        | .ok rr => (r2.1, .ok (l ++ [mk rr]))
+        | .absent => (r2.1, .ok (l ++ [mk 1]))
+        | e => (r2.1, .error e))
+    | e => (r1.1, .error e)
+
+/-- `readNode`'s calculation of an uncached node with type `ty` and base value `b`. -/
+def readCalc (rd : Cache → Item → Int → Cache × Val) (cfg : Config) (d : Dyn) (K : Cache) (y : Item) (a : Int)
+    (am : AttrMeta) (ty : ItemType) (b : Rat) : Cache × Val :=
+  let g := (specsOn u cfg d y ty am.id).foldl (gstep u immune rd cfg d y) (K, Except.ok [])
+  match g.2 with
+  | .error e => (g.1, e)
+  | .ok mods =>
+    match normAll am.stackable mods with
+    | .error _ => (g.1, .divZero)
+    | .ok _ =>
+    let c : Cache × Except Val (Option Rat) := match am.maxAttr with
+      | none => (g.1, .ok none)
+      | some mx =>
+        let r3 := rd g.1 y mx
+        match r3.2 with
+        | .ok cv => (r3.1, .ok (some cv))
+        | .absent => (r3.1, .ok none)
+        | e => (r3.1, .error e)
+    match c.2 with
+    | .error e => (c.1, e)
+    | .ok cap =>
+      match calculate pen am.stackable am.hig b mods cap (limited.contains am.id) with
+      | .ok v => ((fun k => if k = (y.id, a) then some v else c.1 k), .ok v)
+      | .error _ => (c.1, .divZero)
+
+/-- The body of `readNode` with the recursive read abstracted as `rd`. -/
+def readBody (rd : Cache → Item → Int → Cache × Val) (cfg : Config) (d : Dyn) (K : Cache) (y : Item) (a : Int) :
+    Cache × Val :=
+  if y.kind == .skill && a == 280 then (K, match y.level with | some l => .ok l | none => .absent)
+  else match attrMeta? u a with
+  | none => (K, .absent)
+  | some am =>
+    match K (y.id, a) with
+    | some v => (K, .ok v)
+    | none =>
+      match typeOf? u d y with
+      | none => (K, .absent)
+      | some ty =>
+        match baseOf ty am with
+        | none => (K, .absent)
+        | some b => readCalc u immune limited pen rd cfg d K y a am ty b
+
+theorem readNode_succ (f : Nat) (cfg : Config) (d : Dyn) (K : Cache) (y : Item) (a : Int) :
+    readNode u immune limited pen (f + 1) cfg d K y a =
+      readBody u immune limited pen (readNode u immune limited pen f cfg d) cfg d K y a := by
+  rfl
+
+/-! ### What a threaded cache has to satisfy -/
+
+variable {u immune limited pen}
+
+/-- Cached values are from-scratch values. -/
+def Coh (σ : Node → Option Rat) (K : Cache) : Prop := ∀ n v, K n = some v → σ n = some v
+/-- Entries are only added. -/
+def Le (K K' : Cache) : Prop := ∀ n v, K n = some v → K' n = some v
+/-- Closed under the valued dependencies that have a value. -/
+def ClosedV (u : Universe) (cfg : Config) (d : Dyn) (σ : Node → Option Rat) (K : Cache) : Prop :=
+  ∀ n, K n ≠ none → ∀ m ∈ depsV u cfg d n, σ m ≠ none → K m ≠ none
+/-- A valued node with a value is cached. -/
+def Stored (u : Universe) (cfg : Config) (σ : Node → Option Rat) (K : Cache) (m : Node) : Prop :=
+  valued u cfg m = true → σ m ≠ none → K m ≠ none
+
+/-- Whenever the source attribute of a resisted affector spec reads as absent, the resistance attribute has
+no value either.  `get_modifications` (and `readNode`) read the resistance attribute only after the source
+attribute had a value, while `deps` lists it unconditionally: without this a read can cache a node and leave
+a valued dependency of it uncached. -/
+def ResistSrcOK (u : Universe) (cfg : Config) (d : Dyn) (σ : Node → Option Rat) : Prop :=
+  ∀ x ∈ cfg.items, ∀ tx, typeOf? u d x = some tx → ∀ attr, ∀ s ∈ specsOn u cfg d x tx attr, ∀ c r,
+    resistRead cfg s.e x = some (c, r) → readerOf u σ s.a s.m.srcAttr = .absent → σ (c.id, r) = none
+
+/-- Standing hypotheses of the read: unique item ids, rank-well-formed universe, `σ` is the fixed point of the
+local evaluation (the from-scratch values), no calculation divides by zero; `P` switches the closedness part
+on (`P := True` needs `ResistSrcOK`) or off (`P := False`). -/
+structure ReadCtx (u : Universe) (immune limited : List Int) (pen : Nat → Rat) (cfg : Config) (d : Dyn)
+    (σ : Node → Option Rat) (P : Prop) : Prop where
+  uniq : UniqueIds cfg
+  wf : rankWF u = true
+  fix : ∀ n, σ n = evalD u cfg d immune limited pen n σ
+  ef : ∀ x ∈ cfg.items, ∀ am ∈ u.attrs, valueOfD u cfg d immune limited pen (readerOf u σ) x am ≠ .divZero
+  rs : P → ResistSrcOK u cfg d σ
+
+def InvR (u : Universe) (cfg : Config) (d : Dyn) (σ : Node → Option Rat) (P : Prop) (K : Cache) : Prop :=
+  Coh σ K ∧ (P → ClosedV u cfg d σ K)
+
+/-- What a (recursive) read of `(y, a)` from cache `K` has to deliver. -/
+def GoodRead (u : Universe) (cfg : Config) (d : Dyn) (σ : Node → Option Rat) (P : Prop) (K : Cache) (y : Item)
+    (a : Int) (r : Cache × Val) : Prop :=
+  r.2 = readerOf u σ y a ∧ InvR u cfg d σ P r.1 ∧ Le K r.1 ∧ Stored u cfg σ r.1 (y.id, a)
+
+/-- Enough fuel for attribute `a`. -/
+def FuelOK (u : Universe) (f : Nat) (a : Int) : Prop :=
+  0 < f ∧ ((attrMeta? u a).isSome = true → (u.attrs.map (·.id)).idxOf a + 2 ≤ f)
+
+variable {σ : Node → Option Rat} {P : Prop}
+
+theorem Le.refl (K : Cache) : Le K K := fun _ _ h => h
+theorem Le.trans {K K' K'' : Cache} (h : Le K K') (h' : Le K' K'') : Le K K'' := fun n v hn => h' n v (h n v hn)
+theorem Le.ne_none {K K' : Cache} (h : Le K K') {n : Node} (hn : K n ≠ none) : K' n ≠ none := by
+  cases hk : K n with
+  | none => exact absurd hk hn
+  | some v => rw [h n v hk]; exact Option.some_ne_none v
+theorem Stored.mono {K K' : Cache} {m : Node} (h : Stored u cfg σ K m) (hl : Le K K') : Stored u cfg σ K' m :=
+  fun hv hs => hl.ne_none (h hv hs)
+
+/-- One step of `gatherD`'s fold. -/
+def gatherStep (u : Universe) (immune : List Int) (cfg : Config) (d : Dyn) (rd : Reader) (x : Item)
+    (acc : List Mod) (s : Spec) : Except Val (List Mod) :=
+  match rd s.a s.m.srcAttr with
+  | .absent => .ok acc
+  | .ok v => (match resistD cfg rd s.e x with
+    | .ok r => .ok (acc ++ [{ op := s.m.op, value := v, resist := r, agg := s.m.agg, aggKey := s.m.aggKey,
+                              immune := immuneOf u d immune s.a }])
+    | w => .error w)
+  | w => .error w
+
+theorem gatherD_eq_foldlM (rd : Reader) (x : Item) (tx : ItemType) (attr : Int) :
+    gatherD u cfg d immune rd x tx attr = (specsOn u cfg d x tx attr).foldlM (gatherStep u immune cfg d rd x) [] := rfl
+
+/-- The modification a spec contributes for source value `v` and resistance factor `rr`. -/
+def modOf (u : Universe) (immune : List Int) (d : Dyn) (sp : Spec) (v rr : Rat) : Mod :=
+  { op := sp.m.op, value := v, resist := rr, agg := sp.m.agg, aggKey := sp.m.aggKey,
+    immune := immuneOf u d immune sp.a }
+
+/-- What the fold of `readNode` over the affector specs `l` delivers from cache `Kc` and list `l0`: the same
+list of modifications as `gatherD`'s fold under the reader of the from-scratch values; the threaded cache
+stays coherent (and closed), only grows, and what was read is stored. -/
+def FoldGood (u : Universe) (immune : List Int) (cfg : Config) (d : Dyn) (σ : Node → Option Rat) (P : Prop)
+    (rd : Cache → Item → Int → Cache × Val) (y : Item) (Kc : Cache) (l0 : List Mod) (l : List Spec) : Prop :=
+  ∃ mods, (l.foldl (gstep u immune rd cfg d y) (Kc, .ok l0)).2 = .ok mods ∧
+    l.foldlM (gatherStep u immune cfg d (readerOf u σ) y) l0 = .ok mods ∧
+    InvR u cfg d σ P (l.foldl (gstep u immune rd cfg d y) (Kc, .ok l0)).1 ∧
+    Le Kc (l.foldl (gstep u immune rd cfg d y) (Kc, .ok l0)).1 ∧
+    ∀ sp ∈ l, Stored u cfg σ (l.foldl (gstep u immune rd cfg d y) (Kc, .ok l0)).1 (sp.a.id, sp.m.srcAttr) ∧
+      (P → ∀ c r, resistRead cfg sp.e y = some (c, r) →
+        Stored u cfg σ (l.foldl (gstep u immune rd cfg d y) (Kc, .ok l0)).1 (c.id, r))
+
+theorem fold_good (C : ReadCtx u immune limited pen cfg d σ P) (rd : Cache → Item → Int → Cache × Val) {y : Item}
+    {a : Int} {am : AttrMeta} {tx : ItemType} (hy : y ∈ cfg.items) (ha : attrMeta? u a = some am)
+    (hs : (y.kind == .skill && am.id == 280) = false) (ht : typeOf? u d y = some tx)
+    (hrd : ∀ Kc x b, InvR u cfg d σ P Kc → x ∈ cfg.items → (x.id, b) ∈ deps u cfg d (y.id, a) →
+      GoodRead u cfg d σ P Kc x b (rd Kc x b)) :
+    ∀ (l : List Spec), (∀ sp ∈ l, sp ∈ specsOn u cfg d y tx am.id) → ∀ (Kc : Cache) (l0 : List Mod),
+      InvR u cfg d σ P Kc → FoldGood u immune cfg d σ P rd y Kc l0 l := by
+  have hyid : item? cfg (y.id, a).1 = some y := item?_of_mem C.uniq hy
+  intro l
+  induction l with
+  | nil => intro _ Kc l0 hK; exact ⟨l0, rfl, rfl, hK, Le.refl _, fun _ h => by cases h⟩
+  | cons sp l ih =>
+    intro hl Kc l0 hK
+    have hsp := hl sp List.mem_cons_self
+    have hl' : ∀ sp' ∈ l, sp' ∈ specsOn u cfg d y tx am.id := fun sp' h => hl sp' (List.mem_cons_of_mem _ h)
+    have hdep1 : (sp.a.id, sp.m.srcAttr) ∈ deps u cfg d (y.id, a) :=
+      (mem_deps_iff hyid ha hs ht).2 (Or.inl ⟨sp, hsp, Or.inl rfl⟩)
+    obtain ⟨h1v, h1i, h1l, h1s⟩ := hrd Kc sp.a sp.m.srcAttr hK (specsOn_mem hsp).1 hdep1
+    -- the tail, from any state reached by the head
+    have tail : ∀ (K1 : Cache) (l1 : List Mod), InvR u cfg d σ P K1 → Le Kc K1 →
+        Stored u cfg σ K1 (sp.a.id, sp.m.srcAttr) →
+        (P → ∀ c r, resistRead cfg sp.e y = some (c, r) → Stored u cfg σ K1 (c.id, r)) →
+        gstep u immune rd cfg d y (Kc, .ok l0) sp = (K1, .ok l1) →
+        gatherStep u immune cfg d (readerOf u σ) y l0 sp = .ok l1 →
+        FoldGood u immune cfg d σ P rd y Kc l0 (sp :: l) := by
+      intro K1 l1 hK1 hle hst1 hst2 hg1 hg2
+      obtain ⟨mods, e1, e2, e3, e4, e5⟩ := ih hl' K1 l1 hK1
+      refine ⟨mods, ?_, ?_, ?_, ?_, ?_⟩
+      · rw [List.foldl_cons, hg1]; exact e1
+      · rw [List.foldlM_cons, hg2]; exact e2
+      · rw [List.foldl_cons, hg1]; exact e3
+      · rw [List.foldl_cons, hg1]; exact hle.trans e4
+      · intro sp' hsp'
+        rw [List.foldl_cons, hg1]
+        rcases List.mem_cons.1 hsp' with rfl | hsp'
+        · exact ⟨hst1.mono e4, fun hp c r hr => (hst2 hp c r hr).mono e4⟩
+        · exact e5 sp' hsp'
+    rcases readerOf_ok_or_absent (u := u) σ sp.a sp.m.srcAttr with hab | ⟨v, hv⟩
+    · -- source absent: the resistance attribute is not read
+      refine tail _ l0 h1i h1l h1s (fun hp c r hr hval hne => absurd (C.rs hp y hy tx ht am.id sp hsp c r hr hab) hne)
+        ?_ ?_
+      · unfold gstep; simp only [h1v, hab]
+      · unfold gatherStep; simp only [hab]
+    · cases hr : resistRead cfg sp.e y with
+      | none =>
+        refine tail _ (l0 ++ [modOf u immune d sp v 1]) h1i h1l h1s (fun _ c r hr' => by rw [hr] at hr'; cases hr')
+          ?_ ?_
+        · unfold gstep modOf; simp only [h1v, hv, hr]
+        · unfold gatherStep resistD modOf; simp only [hv, hr]
+      | some p =>
+        obtain ⟨c, r⟩ := p
+        have hcm : c ∈ cfg.items :=
+          (carrierOf_mem (cfg := cfg) (x := y) (resistRead_some hr).2.2).elim (fun e => e ▸ hy) id
+        have hdep2 : (c.id, r) ∈ deps u cfg d (y.id, a) :=
+          (mem_deps_iff hyid ha hs ht).2 (Or.inl ⟨sp, hsp, Or.inr ⟨c, r, hr, rfl⟩⟩)
+        obtain ⟨h2v, h2i, h2l, h2s⟩ := hrd (rd Kc sp.a sp.m.srcAttr).1 c r h1i hcm hdep2
+        have hst2 : P → ∀ c' r', resistRead cfg sp.e y = some (c', r') →
+            Stored u cfg σ (rd (rd Kc sp.a sp.m.srcAttr).1 c r).1 (c'.id, r') := by
+          intro _ c' r' hr'
+          rw [hr] at hr'; cases hr'; exact h2s
+        rcases readerOf_ok_or_absent (u := u) σ c r with hab2 | ⟨rr, hv2⟩
+        · refine tail _ (l0 ++ [modOf u immune d sp v 1]) h2i (h1l.trans h2l) (h1s.mono h2l) hst2 ?_ ?_
+          · unfold gstep modOf; simp only [h1v, hv, hr, h2v, hab2]
+          · unfold gatherStep resistD modOf; simp only [hv, hr, hab2]
+        · refine tail _ (l0 ++ [modOf u immune d sp v rr]) h2i (h1l.trans h2l) (h1s.mono h2l) hst2 ?_ ?_
+          · unfold gstep modOf; simp only [h1v, hv, hr, h2v, hv2]
+          · unfold gatherStep resistD modOf; simp only [hv, hr, hv2]
+
+theorem valueOfD_calc {rd : Reader} {y : Item} {am : AttrMeta} {ty : ItemType} {b : Rat} {mods : List Mod}
+    (hs : (y.kind == .skill && am.id == 280) = false) (ht : typeOf? u d y = some ty) (hb : baseOf ty am = some b)
+    (hg : gatherD u cfg d immune rd y ty am.id = .ok mods) (hrd : ∀ a, rd y a = .absent ∨ ∃ v, rd y a = .ok v) :
+    valueOfD u cfg d immune limited pen rd y am =
+      match calculate pen am.stackable am.hig b mods
+        (match am.maxAttr with | none => none | some mx => match rd y mx with | .ok c => some c | _ => none)
+        (limited.contains am.id) with
+      | .ok v => .ok v
+      | .error _ => .divZero := by
+  unfold valueOfD
+  simp only [hs, ht, hb, hg, Bool.false_eq_true, if_false]
+  cases hmx : am.maxAttr with
+  | none => rfl
+  | some mx =>
+    rcases hrd mx with h | ⟨v, h⟩
+    · simp only [h]; rfl
+    · simp only [h]; rfl
+
+theorem calculate_of_normAll {st hig : Bool} {b : Rat} {mods : List Mod} {cap : Option Rat} {lim : Bool} :
+    (∀ e, normAll st mods = .error e → calculate pen st hig b mods cap lim = .error e) ∧
+    (∀ ns, normAll st mods = .ok ns → ∃ v, calculate pen st hig b mods cap lim = .ok v) := by
+  constructor
+  · intro e h; unfold calculate; rw [h]; rfl
+  · intro ns h; unfold calculate; rw [h]; exact ⟨_, rfl⟩
+
+/-- Storing the from-scratch value of a node all of whose valued dependencies are stored. -/
+theorem invR_update {c1 : Cache} {n : Node} {v : Rat} (hi : InvR u cfg d σ P c1) (hσ : σ n = some v)
+    (hdeps : P → ∀ m ∈ depsV u cfg d n, σ m ≠ none → c1 m ≠ none) :
+    InvR u cfg d σ P (fun k => if k = n then some v else c1 k) ∧ Le c1 (fun k => if k = n then some v else c1 k) := by
+  refine ⟨⟨fun k w hk => ?_, fun hp k hk m hm hsm => ?_⟩, fun k w hk => ?_⟩
+  · have hk' : (if k = n then some v else c1 k) = some w := hk
+    by_cases hkn : k = n
+    · rw [if_pos hkn] at hk'; rw [hkn, hσ]; exact hk'
+    · rw [if_neg hkn] at hk'; exact hi.1 k w hk'
+  · have hk' : (if k = n then some v else c1 k) ≠ none := hk
+    show (if m = n then some v else c1 m) ≠ none
+    by_cases hmn : m = n
+    · rw [if_pos hmn]; exact Option.some_ne_none v
+    · rw [if_neg hmn]
+      by_cases hkn : k = n
+      · exact hdeps hp m (hkn ▸ hm) hsm
+      · rw [if_neg hkn] at hk'; exact hi.2 hp k hk' m hm hsm
+  · show (if k = n then some v else c1 k) = some w
+    by_cases hkn : k = n
+    · have := hi.1 k w hk
+      rw [hkn, hσ] at this
+      rw [if_pos hkn]; exact this
+    · rw [if_neg hkn]; exact hk
+
+section body
+variable (rd : Cache → Item → Int → Cache × Val) (K : Cache) (y : Item) (a : Int)
+
+theorem readBody_override (hov : (y.kind == .skill && a == 280) = true) :
+    readBody u immune limited pen rd cfg d K y a =
+      (K, match y.level with | some l => .ok l | none => .absent) := by
+  unfold readBody; rw [if_pos hov]
+
+theorem readBody_nometa (hov : ¬ (y.kind == .skill && a == 280) = true) (ha : attrMeta? u a = none) :
+    readBody u immune limited pen rd cfg d K y a = (K, .absent) := by
+  unfold readBody; rw [if_neg hov]; simp only [ha]
+
+theorem readBody_cached (hov : ¬ (y.kind == .skill && a == 280) = true) {am : AttrMeta}
+    (ha : attrMeta? u a = some am) {v : Rat} (hk : K (y.id, a) = some v) :
+    readBody u immune limited pen rd cfg d K y a = (K, .ok v) := by
+  unfold readBody; rw [if_neg hov]; simp only [ha, hk]
+
+theorem readBody_unloaded (hov : ¬ (y.kind == .skill && a == 280) = true) {am : AttrMeta}
+    (ha : attrMeta? u a = some am) (hk : K (y.id, a) = none) (ht : typeOf? u d y = none) :
+    readBody u immune limited pen rd cfg d K y a = (K, .absent) := by
+  unfold readBody; rw [if_neg hov]; simp only [ha, hk, ht]
+
+theorem readBody_nobase (hov : ¬ (y.kind == .skill && a == 280) = true) {am : AttrMeta}
+    (ha : attrMeta? u a = some am) (hk : K (y.id, a) = none) {ty : ItemType} (ht : typeOf? u d y = some ty)
+    (hb : baseOf ty am = none) :
+    readBody u immune limited pen rd cfg d K y a = (K, .absent) := by
+  unfold readBody; rw [if_neg hov]; simp only [ha, hk, ht, hb]
+
+theorem readBody_calc (hov : ¬ (y.kind == .skill && a == 280) = true) {am : AttrMeta}
+    (ha : attrMeta? u a = some am) (hk : K (y.id, a) = none) {ty : ItemType} (ht : typeOf? u d y = some ty)
+    {b : Rat} (hb : baseOf ty am = some b) :
+    readBody u immune limited pen rd cfg d K y a = readCalc u immune limited pen rd cfg d K y a am ty b := by
+  unfold readBody; rw [if_neg hov]; simp only [ha, hk, ht, hb]
+
+end body
+
+/-- The body of `readNode` with good recursive reads is a good read. -/
+theorem readBody_good (C : ReadCtx u immune limited pen cfg d σ P) (rd : Cache → Item → Int → Cache × Val)
+    {K : Cache} {y : Item} {a : Int} (hy : y ∈ cfg.items) (hK : InvR u cfg d σ P K)
+    (hrd : ∀ Kc x b, InvR u cfg d σ P Kc → x ∈ cfg.items → (x.id, b) ∈ deps u cfg d (y.id, a) →
+      GoodRead u cfg d σ P Kc x b (rd Kc x b)) :
+    GoodRead u cfg d σ P K y a (readBody u immune limited pen rd cfg d K y a) := by
+  have hyid : item? cfg y.id = some y := item?_of_mem C.uniq hy
+  by_cases hov : (y.kind == .skill && a == 280) = true
+  · rw [readBody_override _ _ _ _ hov]
+    refine ⟨by unfold readerOf; rw [if_pos hov]; rfl, hK, Le.refl K, fun hv => ?_⟩
+    simp [valued, hyid, hov] at hv
+  cases ha : attrMeta? u a with
+  | none =>
+    rw [readBody_nometa _ _ _ _ hov ha]
+    refine ⟨by unfold readerOf; rw [if_neg hov, ha]; rfl, hK, Le.refl K, fun hv => ?_⟩
+    simp [valued, ha] at hv
+  | some am =>
+    have hid : am.id = a := by simpa using List.find?_some ha
+    have hnn : ¬ ((attrMeta? u a).isNone = true) := by rw [ha]; simp
+    cases hk : K (y.id, a) with
+    | some v =>
+      rw [readBody_cached _ _ _ _ hov ha hk]
+      refine ⟨?_, hK, Le.refl K, fun _ _ => by show K (y.id, a) ≠ none; rw [hk]; exact Option.some_ne_none v⟩
+      unfold readerOf; rw [if_neg hov, if_neg hnn, hK.1 _ v hk]
+    | none =>
+      have hs : (y.kind == .skill && am.id == 280) = false := by rw [hid]; simpa using hov
+      have hσn : σ (y.id, a) = valToOption (valueOfD u cfg d immune limited pen (readerOf u σ) y am) := by
+        rw [C.fix]; unfold evalD; simp only [hyid, ha]
+      have hVne := C.ef y hy am (List.mem_of_find?_eq_some ha)
+      -- whatever the branch: the value is `valueOfD` under the reader of the from-scratch values
+      have key : ∀ r : Cache × Val, r.2 = valueOfD u cfg d immune limited pen (readerOf u σ) y am →
+          InvR u cfg d σ P r.1 → Le K r.1 → (∀ v, r.2 = .ok v → r.1 (y.id, a) ≠ none) →
+          GoodRead u cfg d σ P K y a r := by
+        intro r h2 hi hle hst
+        rcases valueOfD_reader (u := u) (cfg := cfg) (readerOf_ok_or_absent σ) d immune limited pen y am with
+          h0 | ⟨⟨v, hv⟩, _⟩ | ⟨hab, _⟩
+        · exact absurd h0 hVne
+        · rw [hv] at hσn h2
+          refine ⟨?_, hi, hle, fun _ _ => hst v h2⟩
+          rw [h2]; unfold readerOf; rw [if_neg hov, if_neg hnn, hσn]; rfl
+        · rw [hab] at hσn h2
+          refine ⟨?_, hi, hle, fun _ hne => absurd hσn hne⟩
+          rw [h2]; unfold readerOf; rw [if_neg hov, if_neg hnn, hσn]; rfl
+      cases ht : typeOf? u d y with
+      | none =>
+        rw [readBody_unloaded _ _ _ _ hov ha hk ht]
+        refine key _ ?_ hK (Le.refl K) (fun v h => by cases h)
+        unfold valueOfD; simp only [hs, ht, Bool.false_eq_true, if_false]
+      | some ty =>
+        cases hb : baseOf ty am with
+        | none =>
+          rw [readBody_nobase _ _ _ _ hov ha hk ht hb]
+          refine key _ ?_ hK (Le.refl K) (fun v h => by cases h)
+          unfold valueOfD; simp only [hs, ht, hb, Bool.false_eq_true, if_false]
+        | some b =>
+          have hrd' : ∀ Kc x b, InvR u cfg d σ P Kc → x ∈ cfg.items → (x.id, b) ∈ deps u cfg d (y.id, a) →
+              GoodRead u cfg d σ P Kc x b (rd Kc x b) := hrd
+          obtain ⟨mods, e1, e2, e3, e4, e5⟩ := fold_good C rd hy ha hs ht hrd' _ (fun _ h => h) K [] hK
+          have hV := valueOfD_calc (limited := limited) (pen := pen) hs ht hb
+            ((gatherD_eq_foldlM (readerOf u σ) y ty am.id).trans e2) (fun a => readerOf_ok_or_absent σ y a)
+          have hdeps := @mem_deps_iff u cfg d (y.id, a)
+          rw [readBody_calc _ _ _ _ hov ha hk ht hb]
+          unfold readCalc
+          simp only [e1]
+          cases hn : normAll am.stackable mods with
+          | error e =>
+            rw [(calculate_of_normAll (pen := pen)).1 e hn] at hV
+            exact absurd hV hVne
+          | ok ns =>
+            -- the rest, from the cache `c1` after the cap attribute was read (or not)
+            have fin : ∀ (c1 : Cache) (capv : Option Rat), InvR u cfg d σ P c1 →
+                Le (List.foldl (gstep u immune rd cfg d y) (K, Except.ok []) (specsOn u cfg d y ty am.id)).1 c1 →
+                (∀ mx, am.maxAttr = some mx → Stored u cfg σ c1 (y.id, mx)) →
+                capv = (match am.maxAttr with
+                  | none => none
+                  | some mx => match readerOf u σ y mx with | .ok c => some c | _ => none) →
+                GoodRead u cfg d σ P K y a
+                  (match calculate pen am.stackable am.hig b mods capv (limited.contains am.id) with
+                    | .ok v => ((fun k => if k = (y.id, a) then some v else c1 k), .ok v)
+                    | .error _ => (c1, .divZero)) := by
+              intro c1 capv hi hle hcapst hcap
+              rw [← hcap] at hV
+              obtain ⟨v, hcv⟩ := (calculate_of_normAll (pen := pen) (hig := am.hig) (b := b) (cap := capv)
+                (lim := limited.contains am.id)).2 ns hn
+              rw [hcv] at hV ⊢
+              rw [hV] at hσn
+              obtain ⟨hiu, hleu⟩ := invR_update hi hσn (fun hp m hm hsm => by
+                obtain ⟨hmd, hmv⟩ := mem_depsV.1 hm
+                rcases (hdeps (n' := m) hyid ha hs ht).1 hmd with ⟨s, hsp, rfl | ⟨c, r, hr, rfl⟩⟩ | ⟨mx, hmx, rfl⟩
+                · exact hle.ne_none ((e5 s hsp).1 hmv hsm)
+                · exact hle.ne_none ((e5 s hsp).2 hp c r hr hmv hsm)
+                · exact hcapst mx hmx hmv hsm)
+              refine key _ hV.symm hiu ((e4.trans hle).trans hleu) (fun _ _ => ?_)
+              show (if (y.id, a) = (y.id, a) then some v else c1 (y.id, a)) ≠ none
+              rw [if_pos rfl]; exact Option.some_ne_none v
+            simp only
+            cases hmx : am.maxAttr with
+            | none =>
+              have := fin _ none e3 (Le.refl _) (fun mx h => by rw [hmx] at h; cases h) (by rw [hmx])
+              simpa only using this
+            | some mx =>
+              obtain ⟨h3v, h3i, h3l, h3s⟩ := hrd _ y mx e3 hy
+                ((hdeps (n' := (y.id, mx)) hyid ha hs ht).2 (Or.inr ⟨mx, hmx, rfl⟩))
+              have hst : ∀ mx', am.maxAttr = some mx' → Stored u cfg σ
+                  (rd (List.foldl (gstep u immune rd cfg d y) (K, Except.ok []) (specsOn u cfg d y ty am.id)).1 y mx).1
+                  (y.id, mx') := by
+                intro mx' h; rw [hmx] at h; cases h; exact h3s
+              rcases readerOf_ok_or_absent (u := u) σ y mx with hab | ⟨cv, hcv⟩
+              · have := fin _ none h3i h3l hst (by rw [hmx]; simp only [hab])
+                simpa only [h3v, hab] using this
+              · have := fin _ (some cv) h3i h3l hst (by rw [hmx]; simp only [hcv])
+                simpa only [h3v, hcv] using this
+
+/-- **`readNode` with enough fuel is a good read**, by induction on the fuel: the rank of the attribute
+decreases along `deps` (`rankWF`), attributes without metadata are answered without recursion. -/
+theorem readNode_good (C : ReadCtx u immune limited pen cfg d σ P) : ∀ (f : Nat) (K : Cache) (y : Item) (a : Int),
+    y ∈ cfg.items → InvR u cfg d σ P K → FuelOK u f a →
+    GoodRead u cfg d σ P K y a (readNode u immune limited pen f cfg d K y a) := by
+  intro f
+  induction f with
+  | zero => intro K y a _ _ hf; exact absurd hf.1 (Nat.lt_irrefl 0)
+  | succ f ih =>
+    intro K y a hy hK hf
+    rw [readNode_succ]
+    refine readBody_good C _ hy hK (fun Kc x b hKc hx hdep => ih Kc x b hx hKc ?_)
+    obtain ⟨am, ham, _⟩ := deps_readable hdep
+    have h2 := hf.2 (by rw [show attrMeta? u a = some am from ham]; rfl)
+    refine ⟨by omega, fun hb => ?_⟩
+    have := deps_rank_lt C.wf hdep hb
+    unfold rankOf at this
+    simp only at this
+    omega
+
+theorem fuelOK_top (a : Int) : FuelOK u (fuelOf u + 1) a := by
+  refine ⟨Nat.succ_pos _, fun _ => ?_⟩
+  have := List.idxOf_le_length (a := a) (l := u.attrs.map (·.id))
+  rw [List.length_map] at this
+  unfold fuelOf; omega
+
+/-! ### The read against the graph of the state -/
+
+open Eos.DepCache Eos.Machine Eos.Micro.L
+
+theorem worldGraph_deps (hwf : rankWF u = true) (hU : UniqueIds cfg) (n : Node) :
+    (worldGraph u immune limited pen hwf (cfg, d)).deps n = depsV u cfg d n := by
+  unfold worldGraph; rw [dif_pos hU]; rfl
+
+theorem readCtx_world (hwf : rankWF u = true) (hU : UniqueIds cfg)
+    (hef : ErrorFree u immune limited pen (worldGraph u immune limited pen hwf) cfg d) (P : Prop)
+    (hrs : P → ResistSrcOK u cfg d (spec (worldGraph u immune limited pen hwf (cfg, d)))) :
+    ReadCtx u immune limited pen cfg d (spec (worldGraph u immune limited pen hwf (cfg, d))) P where
+  uniq := hU
+  wf := hwf
+  fix := fun n => by rw [spec_unfold, (worldGraph_ties hwf).heval]
+  ef := hef
+  rs := hrs
+
+theorem invR_of_inv (hwf : rankWF u = true) (hU : UniqueIds cfg) {K : Cache}
+    (hg : Inv (worldGraph u immune limited pen hwf (cfg, d)) K) (P : Prop) :
+    InvR u cfg d (spec (worldGraph u immune limited pen hwf (cfg, d))) P K :=
+  ⟨hg.coh, fun _ n hn m hm hs => hg.closed n hn m (by rw [worldGraph_deps hwf hU]; exact hm) hs⟩
+
+/-- **Value of the executable read.**  Cache coherent and dependency-closed for the graph of the state
+(`Machine.Good`), rank-well-formed universe, unique item ids, no calculation divides by zero: a public read of
+`(y, a)` with the model's fuel returns what the reader of the from-scratch values `spec (worldGraph … (cfg, d))`
+answers — the skill level for the override node, `absent` without metadata, otherwise `.ok v` / `.absent`
+according to `spec … (y.id, a) = some v` / `none`. -/
+theorem readNode_value (hwf : rankWF u = true) (hU : UniqueIds cfg)
+    (hef : ErrorFree u immune limited pen (worldGraph u immune limited pen hwf) cfg d) {K : Cache}
+    (hg : Inv (worldGraph u immune limited pen hwf (cfg, d)) K) {y : Item} (hy : y ∈ cfg.items) (a : Int) :
+    (readNode u immune limited pen (fuelOf u + 1) cfg d K y a).2 =
+      readerOf u (spec (worldGraph u immune limited pen hwf (cfg, d))) y a :=
+  (readNode_good (readCtx_world hwf hU hef False (fun h => h.elim)) _ K y a hy (invR_of_inv hwf hU hg False)
+    (fuelOK_top a)).1
+
+/-- The same for a node the reader takes from the valuation (attribute with metadata, not a skill's level). -/
+theorem readNode_value_node (hwf : rankWF u = true) (hU : UniqueIds cfg)
+    (hef : ErrorFree u immune limited pen (worldGraph u immune limited pen hwf) cfg d) {K : Cache}
+    (hg : Inv (worldGraph u immune limited pen hwf (cfg, d)) K) {y : Item} (hy : y ∈ cfg.items) {a : Int}
+    (hv : valued u cfg (y.id, a) = true) :
+    (readNode u immune limited pen (fuelOf u + 1) cfg d K y a).2 =
+      match spec (worldGraph u immune limited pen hwf (cfg, d)) (y.id, a) with
+      | some v => .ok v
+      | none => .absent := by
+  rw [readNode_value hwf hU hef hg hy a]
+  simp only [valued, item?_of_mem hU hy, Bool.and_eq_true, Bool.not_eq_true'] at hv
+  unfold readerOf
+  rw [if_neg (by rw [hv.2]; simp), if_neg (by rw [Option.isSome_iff_ne_none] at hv; simpa using hv.1)]
+  rfl
+
+/-- The cache after the read is coherent, and it only grows. -/
+theorem readNode_coh (hwf : rankWF u = true) (hU : UniqueIds cfg)
+    (hef : ErrorFree u immune limited pen (worldGraph u immune limited pen hwf) cfg d) {K : Cache}
+    (hg : Inv (worldGraph u immune limited pen hwf (cfg, d)) K) {y : Item} (hy : y ∈ cfg.items) (a : Int) :
+    Coh (spec (worldGraph u immune limited pen hwf (cfg, d)))
+      (readNode u immune limited pen (fuelOf u + 1) cfg d K y a).1 ∧
+    Le K (readNode u immune limited pen (fuelOf u + 1) cfg d K y a).1 :=
+  have h := readNode_good (readCtx_world hwf hU hef False (fun h => h.elim)) _ K y a hy
+    (invR_of_inv hwf hU hg False) (fuelOK_top a)
+  ⟨h.2.1.1, h.2.2.1⟩
+
+/- Full statement (NOT provable; see `ResistSrcOK`): with the hypotheses of `readNode_value` the cache after
+the read is `fun n => if S n then spec G n else K n` for a set `S` with `Machine.Legal G ⟨(cfg, d), K⟩ (.read S)`.
+Counter-example: a projected, resisted modifier whose source attribute is absent on the projector while the
+target's resistance attribute has a value: the read caches the modified attribute of the target without
+reading (hence caching) the resistance attribute, which `deps` lists. -/
+/-- **A public read of the driver is a legal read step of the abstract machine** — under the additional
+hypothesis `ResistSrcOK` (whenever the source attribute of a resisted spec reads as absent, the resistance
+attribute it would be scaled by has no value either). -/
+theorem readNode_legal_partial (hwf : rankWF u = true) (hU : UniqueIds cfg)
+    (hef : ErrorFree u immune limited pen (worldGraph u immune limited pen hwf) cfg d)
+    (hrs : ResistSrcOK u cfg d (spec (worldGraph u immune limited pen hwf (cfg, d)))) {K : Cache}
+    (hg : Inv (worldGraph u immune limited pen hwf (cfg, d)) K) {y : Item} (hy : y ∈ cfg.items) (a : Int) :
+    ∃ S : Node → Bool,
+      Legal (worldGraph u immune limited pen hwf) ⟨(cfg, d), K⟩ (.read S) ∧
+      (readNode u immune limited pen (fuelOf u + 1) cfg d K y a).1 =
+        fun n => if S n then spec (worldGraph u immune limited pen hwf (cfg, d)) n else K n := by
+  obtain ⟨_, ⟨hcoh, hcl⟩, hle, _⟩ := readNode_good (readCtx_world hwf hU hef True (fun _ => hrs)) _ K y a hy
+    (invR_of_inv hwf hU hg True) (fuelOK_top a)
+  generalize (readNode u immune limited pen (fuelOf u + 1) cfg d K y a).1 = K' at hcoh hcl hle
+  refine ⟨fun n => (K' n).isSome && (K n).isNone, fun n hn m hm hs => ?_, funext fun n => ?_⟩
+  · simp only [Bool.and_eq_true, Option.isSome_iff_ne_none, Option.isNone_iff_eq_none] at hn ⊢
+    have := hcl trivial n hn.1 m (by rw [← worldGraph_deps (immune := immune) (limited := limited) (pen := pen) hwf hU]; exact hm) hs
+    by_cases hk : K m = none
+    · exact Or.inl ⟨this, hk⟩
+    · exact Or.inr hk
+  · show K' n = if ((K' n).isSome && (K n).isNone) = true then _ else K n
+    cases hk' : K' n with
+    | none =>
+      cases hk : K n with
+      | none => simp
+      | some v => rw [hle n v hk] at hk'; cases hk'
+    | some v =>
+      cases hk : K n with
+      | none => simp [hcoh n v hk']
+      | some w => rw [hle n w hk] at hk'; simp [hk']
+
+/-! ### Reads on the table representation -/
+
+theorem mem_tblOf {K : Cache} {p : Node × Rat} :
+    p ∈ tblOf u cfg K ↔ (∃ x ∈ cfg.items, ∃ am ∈ u.attrs, p.1 = (x.id, am.id)) ∧ K p.1 = some p.2 := by
+  simp only [tblOf, List.mem_flatMap, List.mem_filterMap, Option.map_eq_some_iff]
+  constructor
+  · rintro ⟨x, hx, am, ham, v, hv, rfl⟩; exact ⟨⟨x, hx, am, ham, rfl⟩, hv⟩
+  · rintro ⟨⟨x, hx, am, ham, h1⟩, h2⟩
+    exact ⟨x, hx, am, ham, p.2, by rw [← h1]; exact h2, by rw [← h1]⟩
+
+/-- Re-packing a cache whose entries belong to configured items and attributes with metadata loses nothing. -/
+theorem tblFun_tblOf {K : Cache}
+    (hsupp : ∀ n, K n ≠ none → ∃ x ∈ cfg.items, ∃ am ∈ u.attrs, n = (x.id, am.id)) :
+    tblFun (tblOf u cfg K) = K := by
+  funext n
+  unfold tblFun
+  cases hf : (tblOf u cfg K).find? (·.1 == n) with
+  | none =>
+    cases hk : K n with
+    | none => rfl
+    | some v =>
+      have := List.find?_eq_none.1 hf (n, v) (mem_tblOf.2 ⟨hsupp n (by rw [hk]; exact Option.some_ne_none v), hk⟩)
+      simp at this
+  | some p =>
+    have hp := (mem_tblOf.1 (List.mem_of_find?_eq_some hf)).2
+    have hk : p.1 = n := by simpa using List.find?_some hf
+    rw [hk] at hp
+    exact hp.symm
+
+/-- A coherent cache has entries only for configured items and attributes with metadata. -/
+theorem supp_of_coh {K : Cache} (hfix : ∀ n, σ n = evalD u cfg d immune limited pen n σ) (hc : Coh σ K) :
+    ∀ n, K n ≠ none → ∃ x ∈ cfg.items, ∃ am ∈ u.attrs, n = (x.id, am.id) := by
+  intro n hn
+  cases hk : K n with
+  | none => exact absurd hk hn
+  | some v =>
+    have := hc n v hk
+    rw [hfix] at this
+    unfold evalD at this
+    cases hx : item? cfg n.1 with
+    | none => rw [hx] at this; cases this
+    | some x =>
+      cases ha : attrMeta? u n.2 with
+      | none => rw [hx, ha] at this; cases this
+      | some am => exact ⟨x, item?_mem hx, am, attrMeta?_mem ha, node_eq hx ha⟩
+
+/-- **The driver's read is the model's read**: `readStepT` (table in, table out) and `readStep` return the
+same value and the same state. -/
+theorem readStepT_toM (hwf : rankWF u = true) {s : TState} (hU : UniqueIds s.cfg)
+    (hef : ErrorFree u immune limited pen (worldGraph u immune limited pen hwf) s.cfg s.dyn)
+    (hg : Good (worldGraph u immune limited pen hwf) (toState s.toM)) (i : Nat) (a : Int) :
+    (readStepT u immune limited pen s i a).1.toM = (readStep u immune limited pen s.toM i a).1 ∧
+    (readStepT u immune limited pen s i a).2 = (readStep u immune limited pen s.toM i a).2 := by
+  unfold readStepT readStep
+  simp only [TState.toM]
+  cases hi : item? s.cfg i with
+  | none => exact ⟨rfl, rfl⟩
+  | some y =>
+    refine ⟨?_, rfl⟩
+    show MState.mk _ _ _ = MState.mk _ _ _
+    congr 1
+    exact tblFun_tblOf (supp_of_coh (readCtx_world hwf hU hef False (fun h => h.elim)).fix
+      (readNode_coh hwf hU hef hg (item?_mem hi) a).1)
+
+/-! ### Why `ResistSrcOK` is needed
+
+A module (item 2) projects effect 1000 — resisted by attribute 9, one modifier `37 ← 20` — onto a ship
+(item 1); the module's type has no attribute 20, the ship's type has attribute 9.  Reading `(1, 37)` skips the
+modifier (source absent) without reading the resistance attribute: `(1, 37)` is cached, its dependency `(1, 9)`
+has a from-scratch value and stays uncached. -/
+
+def gapU : Universe :=
+  { attrs := [⟨9, none, none, true, true⟩, ⟨20, none, none, true, true⟩, ⟨37, none, none, true, true⟩],
+    effects := [⟨1000, 2, none, some 9, false, [⟨1, 4, none, 37, 6, 1, none, 20⟩]⟩],
+    types := [⟨1, none, some 6, none, [(37, 100), (9, 1/2)], [], []⟩, ⟨2, none, some 7, none, [], [1000], []⟩] }
+def gapShip : Item := ⟨1, .ship, 1, 0, 1, none, none, none, []⟩
+def gapCfg : Config :=
+  { hasSource := true, fits := [⟨0, some 1, none, none⟩],
+    items := [gapShip, ⟨2, .moduleMid, 2, 0, 3, none, some 1, none, []⟩] }
+def gapD : Dyn :=
+  { loaded := fun i => i == 1 || i == 2, on := fun i e => i == 2 && e == 1000,
+    tgts := fun i e => if i == 2 && e == 1000 then [1] else [] }
+
+example : (readNode gapU specImmune specLimited (fun _ => 1) (fuelOf gapU + 1) gapCfg gapD (fun _ => none) gapShip 37).2
+      = .ok 100 ∧
+    (readNode gapU specImmune specLimited (fun _ => 1) (fuelOf gapU + 1) gapCfg gapD (fun _ => none) gapShip 37).1 (1, 37)
+      = some 100 ∧
+    (readNode gapU specImmune specLimited (fun _ => 1) (fuelOf gapU + 1) gapCfg gapD (fun _ => none) gapShip 37).1 (1, 9)
+      = none ∧
+    (1, 9) ∈ depsV gapU gapCfg gapD (1, 37) ∧
+    spec (worldGraph gapU specImmune specLimited (fun _ => 1) (by decide) (gapCfg, gapD)) (1, 9) = some (1/2) := by
+  refine ⟨by decide +kernel, by decide +kernel, by decide +kernel, by decide +kernel, by decide +kernel⟩
+
+/-! ### Non-vacuity: the settled two-item world of `Lemmas/MicroSettle.lean`, read through the table twin -/
+
+example : (readStepT settleU specImmune specLimited (fun _ => 1)
+      ⟨settleCfg, derivedDyn settleU settleCfg, []⟩ 1 37).2 = .ok 225 ∧
+    (readStepT settleU specImmune specLimited (fun _ => 1)
+      ⟨settleCfg, derivedDyn settleU settleCfg, []⟩ 1 37).1.tbl = [((1, 37), 225), ((2, 20), 3/2)] := by
+  refine ⟨by decide +kernel, by decide +kernel⟩
+
+end read
 
 end Eos.Micro
